@@ -17,7 +17,7 @@ ASSUMPTIONS = [
     "dotted names are used on dict-valued readings only",
     "no member keeps a default-named helper series (TR, SMA_n, STDEV_n) under the top-level name of another member, on any timeframe (C13 owns that collision; Hexital.reading searches every timeframe)",
 ]
-PARTIAL = ''
+PARTIAL = 'full strength for the modelled accessors, which since round 6 include read_candle, Hexital.indicator, the exact cross-manager rule of Hexital.reading, index None, utils.indexing and find_indicator (HexModel/Core/Surface.lean, tied by the correspondence)'
 
 
 def oracle(ctx):
